@@ -41,13 +41,20 @@ def _ev(e, k=0, w=1, ok=True, same=True, files=()):
 
 
 def _callback_events(log: list[dict]) -> tuple[list[dict], int]:
+    """Callback events of one run for TLC.  The trace is key-centric: every key gets its own virtual worker (w = k),
+    so only the per-key protocol is prescribed, not which process does what when (a design may look all keys up
+    first, in the caller's process); a repeated name_fn call for a key within a run is not an event of its own."""
     pids: dict[int, int] = {}
-    out = []
+    out, named = [], set()
     for r in log:
         if r["e"] not in CB_EVENTS:
             continue
-        w = pids.setdefault(r["pid"], len(pids) + 1)
-        out.append(_ev(r["e"], r["k"], w, ok=r.get("ok", True)))
+        pids.setdefault(r["pid"], len(pids) + 1)
+        if r["e"] == "name":
+            if r["k"] in named:
+                continue
+            named.add(r["k"])
+        out.append(_ev(r["e"], r["k"], r["k"], ok=r.get("ok", True)))
     return out, len(pids)
 
 
@@ -75,7 +82,7 @@ def run_scenario(sc: dict) -> dict:
         shutil.rmtree(base, ignore_errors=True)
     (base / "cache").mkdir(parents=True)
     nk, flavour, w = sc["nk"], sc["flavour"], sc["w"]
-    spec_w = max(1, w)
+    spec_w = nk                     # trace validation: one virtual worker per key
     events: list[dict] = []
     state = {"run": 0, "verify": False}
     stats = {"cuts": 0, "fallback": 0, "runs": 0, "other_files": 0, "partial_final": 0}
@@ -94,6 +101,9 @@ def run_scenario(sc: dict) -> dict:
         return info, log, ctl
 
     def fail(what: str, **kw):
+        bad_loads = [e["k"] for e in events if e["e"] == "load_end" and not e["ok"]]
+        if bad_loads:
+            kw["failing_key"] = bad_loads[-1]
         return {"status": "violation", "detail": {"what": what, "run": state["run"], **kw}, "trace": events,
                 "stats": stats, "spec_w": spec_w}
 
@@ -106,9 +116,7 @@ def run_scenario(sc: dict) -> dict:
         ok = bool(res and res.get("ok")) and not info["timed_out"]
         same = ok and same_result(flavour, res["out"], sc["reference"])
         events.append(_ev("end", ok=ok, same=same))
-        if npids > spec_w:
-            return {"status": "unrealised", "why": f"{npids} worker processes logged, pool size {spec_w}", "trace": events,
-                    "stats": stats, "spec_w": spec_w}
+        stats["max_pids"] = max(stats.get("max_pids", 0), npids)
         if not ok:
             return fail("run raised", exc=(res or {}).get("exc"), msg=(res or {}).get("msg"),
                         timed_out=info["timed_out"], exit=info.get("exit"), signal=info.get("signal"))
@@ -119,14 +127,15 @@ def run_scenario(sc: dict) -> dict:
             return fail("a run that follows a completed run recomputed", computed=computed)
         return None
 
-    for snap, offs in zip(sc["crashes"], sc["offsets"]):
+    for snap, offs, pts in zip(sc["crashes"], sc["offsets"], sc.get("points") or [None] * len(sc["crashes"])):
         if snap["verify"] and not state["verify"]:
             bad = complete_run()
             if bad:
                 return bad
             events.append(_ev("newrun"))
             state["verify"] = True
-        plan = ck.plan_from_snapshot(snap, nk, sc["l"], {int(k): v for k, v in offs.items()})
+        plan = ck.plan_from_snapshot(snap, nk, sc["l"], {int(k): v for k, v in offs.items()},
+                                     {int(k): v for k, v in (pts or {}).items()})
         info, log, ctl = launch(plan)
         evs, npids = _callback_events(log)
         events.extend(evs)
@@ -138,7 +147,7 @@ def run_scenario(sc: dict) -> dict:
         killed = (ctl / "killed").exists() and not (ctl / "unrealised").exists() and not info["timed_out"]
         if sc.get("kill", "group") == "group":
             killed = killed and info.get("signal") == 9
-        if not killed or npids > spec_w:
+        if not killed:
             return {"status": "unrealised", "why": {"info": {k: v for k, v in info.items() if k != "result"},
                                                    "flags": sorted(p.name for p in ctl.glob("*"))},
                     "trace": events, "stats": stats, "spec_w": spec_w}
@@ -220,11 +229,12 @@ def clean_run(args: dict) -> dict:
 # scenarios from the specification's crash histories
 # ---------------------------------------------------------------------------------------------------
 def stages_of(snap: dict) -> list:
-    return sorted((w["k"], w["at"], w["b"]) for w in snap["pcs"] if w["k"])
+    """Stage of every busy worker as the harness realises it: (key, stage, content of the file being written)."""
+    return sorted((w["k"], w["at"], ck.content(snap, w["k"]) if w["at"] == "writing" else 0) for w in snap["pcs"] if w["k"])
 
 
 def writing_keys(snap: dict, nchunks: int) -> list[int]:
-    return [w["k"] for w in snap["pcs"] if w["k"] and w["at"] == "writing" and 0 < w["b"] < nchunks]
+    return [w["k"] for w in snap["pcs"] if w["k"] and w["at"] == "writing" and 0 < ck.content(snap, w["k"]) < nchunks]
 
 
 def spread(size: int, n: int, rnd: random.Random) -> list[int]:
@@ -238,7 +248,8 @@ def spread(size: int, n: int, rnd: random.Random) -> list[int]:
     return sorted(picks, key=lambda o: (o not in (1, size - 1, size // 2), o))[:n]
 
 
-def expand(payload: dict, flavour: str, w: int, sizes: list[int], rnd: random.Random, n_off: int | None) -> list[dict]:
+def expand(payload: dict, flavour: str, w: int, sizes: list[int], rnd: random.Random, n_off: int | None,
+           both_points: bool = False) -> list[dict]:
     """Scenarios for one emitted crash history: one per chosen byte offset of the (first) mid-write stage;
     further mid-write stages draw a random offset.  n_off None = every offset."""
     nchunks = payload["l"]
@@ -257,22 +268,35 @@ def expand(payload: dict, flavour: str, w: int, sizes: list[int], rnd: random.Ra
             v = [dict(d) for d in base_offs]
             v[ci0][str(k0)] = o
             variants.append(v)
-    return [{"flavour": flavour, "w": w, "nk": payload["nk"], "l": nchunks, "crashes": crashes, "offsets": v}
-            for v in variants]
+    # a 'saved' stage is realised right after the rename returned (nothing flushed by the harness) or after save_fn
+    saved = [(ci, wk["k"]) for ci, sn in enumerate(crashes) for wk in sn["pcs"] if wk["k"] and wk["at"] == "saved"]
+    pvars = [[{} for _ in crashes]]
+    if saved:
+        choices = ["replace", "save"] if both_points else [rnd.choice(["replace", "replace", "save"])]
+        pvars = []
+        for c in choices:
+            pv = [{} for _ in crashes]
+            for ci, k in saved:
+                pv[ci][str(k)] = c
+            pvars.append(pv)
+    return [{"flavour": flavour, "w": w, "nk": payload["nk"], "l": nchunks, "crashes": crashes, "offsets": v, "points": pv}
+            for v in variants for pv in pvars]
 
 
 def classify(sc: dict, detail: dict) -> str | None:
     """Finding key from the shape of the failing scenario (DESIGN appendix D)."""
-    if detail.get("what") == "run raised" or detail.get("tlc") == "rejected":
+    if detail.get("what") == "run raised":
         for snap in sc["crashes"]:
             for wk in snap["pcs"]:
-                if wk["k"] and wk["at"] == "writing" and wk["b"] < sc["l"]:
-                    return "partial-file"      # crash between Open and the last Write of a result file
+                if wk["k"] and wk["at"] == "writing" and ck.content(snap, wk["k"]) < sc["l"] \
+                        and detail.get("failing_key", wk["k"]) == wk["k"]:
+                    return "partial-file"      # crash while the file being written does not hold the whole result yet
     return None
 
 
 def scenario_key(sc: dict) -> str:
-    return json.dumps([sc["flavour"], sc["w"], [stages_of(s) for s in sc["crashes"]], sc["offsets"]], sort_keys=True)
+    return json.dumps([sc["flavour"], sc["w"], [[stages_of(s), sorted(s["done"])] for s in sc["crashes"]], sc["offsets"],
+                       sc.get("points")], sort_keys=True)
 
 
 def validate_traces(ctx: Ctx, rep: Report, items: list[tuple[str, int, int, list]], tag: str) -> dict:
@@ -351,6 +375,7 @@ TRACE_CFG = """CONSTANTS
     L = 1
     Design = "any"
     Policy = "any"
+    RenameAt = "closed"
     MaxCrash = 4
     Fifo = FALSE
     EmitOn = FALSE
@@ -387,6 +412,7 @@ def model_check(ctx: Ctx, rep: Report) -> dict:
     """All TLC runs on the specification itself; returns the emitted crash histories per cfg."""
     jobs = [
         ("pinned", "CacheCrash_pinned.cfg", {"expect_violation": True, "workers": 2}, ""),
+        ("earlyrename", "CacheCrash_earlyrename.cfg", {"expect_violation": True, "workers": 2}, ""),
         ("live", "CacheCrash_live.cfg", {"coverage": True, "workers": 2},
          "termination of every uncrashed run (liveness) + NoRaise, temp+rename, 2 workers, 2 keys, <= 2 crashes"),
         ("validate", "CacheCrash_validate.cfg", {"workers": 2},
@@ -413,10 +439,18 @@ def model_check(ctx: Ctx, rep: Report) -> dict:
                 f"TLC: NoRaise violated for Design=direct, Policy=trust ({res.distinct} states): crash between Open "
                 "and the last Write, the rerun raises")
             continue
+        if name == "earlyrename":
+            if res.violated != "NoRaise":
+                raise MachineryError("the wrong order 'rename before close' (temp file moved onto the final path while "
+                                     f"still buffered) should violate NoRaise; TLC said {res.violated!r}")
+            rep.notes["rename_before_close_counterexample"] = (
+                f"TLC: NoRaise violated for RenameAt=written ({res.distinct} states): crash after the rename and before "
+                "Close leaves a final path that lacks the buffered chunks, the rerun raises")
+            continue
         rep.add_tlc(res, what)
         if name == "live":
             rep.require_coverage(res, ["Take", "Lookup", "LoadOk", "Compute", "Open", "Write", "Close", "Rename",
-                                       "Return", "FinishRun", "NextRun", "EndAll", "Crash"])
+                                       "Flush", "Return", "FinishRun", "NextRun", "EndAll", "Crash"])
         if name in dict(emit):
             if not res.payloads:
                 raise MachineryError(f"no crash histories emitted by {cfg}")
@@ -437,7 +471,7 @@ def build_scenarios(ctx: Ctx, emitted: dict, sizes: dict) -> list[dict]:
             for w in (0, 1):
                 exhaustive = (not q) and fl == "pmap"
                 n_off = None if exhaustive else (3 if q else 24)
-                scs += expand(p, fl, w, sizes[fl], rnd, n_off)
+                scs += expand(p, fl, w, sizes[fl], rnd, n_off, both_points=True)
     # B. two crashes in a row
     pick = rnd.sample(double, 110) if q else double
     for p in pick:
@@ -508,8 +542,8 @@ def run(ctx: Ctx) -> int:
         rep.replayed += 1
         if c["bad"]:
             rep.mismatch({"flavour": c["flavour"], "w": c["w"], "nk": c["nk"], "crashes": [], "l": 2, "clean": True}, c["bad"], None)
-        elif c["w"] <= 3 and c["nk"] == nk:
-            trace_items.append((f"clean/{c['flavour']}/{c['nk']}/{c['w']}", c["nk"], max(1, c["w"]), c["trace"]))
+        elif c["nk"] == nk:
+            trace_items.append((f"clean/{c['flavour']}/{c['nk']}/{c['w']}", c["nk"], c["nk"], c["trace"]))
 
     # ---- spec -> code: fault injection ---------------------------------------------------------------------
     scs = build_scenarios(ctx, emitted, sizes)
@@ -548,7 +582,7 @@ def run(ctx: Ctx) -> int:
         if r["status"] == "violation":
             failed[sc["id"]] = r["detail"]
     for sc in scs[:: max(1, len(scs) // 4)][:4]:
-        rep.sample({k: sc[k] for k in ("flavour", "w", "nk", "crashes", "offsets")})
+        rep.sample({k: sc[k] for k in ("flavour", "w", "nk", "crashes", "offsets", "points")})
     rep.notes.update({"scenarios": len(scs), "unrealised_discarded": unreal, "mid_write_cuts_realised": cuts,
                       "stage_not_passed_fallbacks": fallback,
                       "advisory_leftover_non_key_files_seen_after_crashes": other,
@@ -572,7 +606,7 @@ def run(ctx: Ctx) -> int:
     for tid, _nk, _sw, evs in trace_items:
         acc = tv["verdict"].get(tid, False)
         sc = by_id.get(tid)
-        scen = ({k: sc[k] for k in ("flavour", "w", "nk", "l", "crashes", "offsets")} if sc
+        scen = ({k: sc[k] for k in ("flavour", "w", "nk", "l", "crashes", "offsets", "points")} if sc
                 else {"clean": tid, "crashes": [], "l": 2})
         if tid in failed:
             if acc:
